@@ -224,6 +224,11 @@ def shape(t, env: Env):
     if k == "sum":
         return SC
     if k == "fam":
+        sb = shape(t[2], env)
+        if sb != SC:
+            raise ShapeError(
+                f"each member of the family over {t[1]} contributes a whole vector ({sb}) "
+                f"where the model has one value per link: {fmt(t[2], 80)}")
         return ("fam", t[1])
     raise AnalysisError(f"shape: unknown term kind {k}")
 
